@@ -172,3 +172,62 @@ func C08_NoLeak() {
 	nd.Cover("C08/no-leak " + src)
 	nd.Assert(errClass(gerr) == werr, "C08/no-leak "+src)
 }
+
+var _ = reg("C08_Partial", C08_Partial)
+
+// paths that hand items on one at a time and can fail at a later item, at
+// every kind of producer: wildcards, subscript lists, methods and unary
+// operators over sequences, operands of arithmetic and comparisons
+var partialPaths = []string{
+	"strict $[*].a", "strict $[0, 1].a", "strict $[0 to 1].a", "$[*].integer()", "strict $[*].double()", "strict -$[*]",
+	"strict 1 + $[*].double()", "strict $[*].double() + 1", "strict $.*.a", "$[*].keyvalue().value", "strict $[*].size()",
+	"strict $[*] ? (@.a > 0).b", "strict $[*].a.b", "$[*].abs().boolean()", "strict $[1, 0][0]",
+}
+
+// C08_Partial: where the verbose run fails with a suppressible error after
+// some items were found, the silent Query returns exactly those items and
+// First the first of them; silent Exists answers true only if an item was
+// found before the failure and is NULL otherwise. Two-item documents, the
+// reference being the partial result of the depth-first reference evaluator.
+func C08_Partial() {
+	src := partialPaths[nd.Choice(len(partialPaths))]
+	es := nd.Spec{Kinds: nd.KFloat | nd.KString | nd.KArray | nd.KObject, Depth: 1, Width: 1, StrLen: 1, Keys: []string{"a", "b"}, ASCII: true}
+	var doc any
+	if nd.Choice(2) == 0 {
+		doc = []any{nd.JSON(es), nd.JSON(es)}
+	} else {
+		doc = map[string]any{"a": nd.JSON(es), "b": nd.JSON(es)}
+	}
+	p := parse(src)
+	tag := "C08/partial " + src
+	_, verr := p.Query(bg, doc)
+	if errClass(verr) != eSupp {
+		nd.Cover(tag + "/no-suppressible-failure")
+		return
+	}
+	got, gerr := p.Query(bg, doc, exec.WithSilent())
+	nd.Assert(gerr == nil, tag+"/suppressible-error-not-suppressed")
+	want, ok := itemsBeforeFailure(p, doc, nil)
+	if !ok || gerr != nil {
+		return
+	}
+	nd.Assert(sameSeq(got, want, false), tag+"/silent-items-differ-from-items-before-failure")
+	f, ferr := p.First(bg, doc, exec.WithSilent())
+	nd.Assert(ferr == nil, tag+"/First/suppressible-error-not-suppressed")
+	if ferr == nil {
+		if len(want) == 0 {
+			nd.Assert(f == nil, tag+"/First/item-though-none-before-failure")
+		} else {
+			nd.Assert(sameItem(f, want[0]), tag+"/First/not-the-first-item-before-failure")
+		}
+	}
+	ex, eerr := p.Exists(bg, doc, exec.WithSilent())
+	if len(want) == 0 {
+		nd.Assert(eerr == exec.NULL && !ex, tag+"/Exists/not-NULL-though-nothing-established")
+	} else if p.IsStrict() {
+		// strict mode evaluates completely: the failure makes it NULL
+		nd.Assert(eerr == exec.NULL && !ex, tag+"/Exists/strict-not-NULL-after-failure")
+	} else {
+		nd.Assert(eerr == nil && ex, tag+"/Exists/lax-not-true-though-an-item-precedes-the-failure")
+	}
+}
